@@ -9,6 +9,7 @@ import (
 	"fmt"
 	"math/big"
 
+	"github.com/cloudflare/circl/abe/cpabe/tkn20"
 	"github.com/cloudflare/circl/blindsign/blindrsa"
 	"github.com/cloudflare/circl/cipher/ascon"
 	"github.com/cloudflare/circl/dh/curve4q"
@@ -20,6 +21,7 @@ import (
 	"github.com/cloudflare/circl/ecc/p384"
 	"github.com/cloudflare/circl/expander"
 	"github.com/cloudflare/circl/group"
+	"github.com/cloudflare/circl/secretsharing"
 	"github.com/cloudflare/circl/xof"
 	"github.com/cloudflare/circl/xof/k12"
 	"github.com/cloudflare/circl/zz_verif/vlib"
@@ -258,5 +260,96 @@ func eccKinds() []concKind {
 			return concPlan{ops: ops, want: []string{"ok", "ok", "ok", "ok"}, desc: []string{"Blind+BlindSign+Finalize+Verify", "same", "same", "same"}}
 		}})
 	}
+	return ks
+}
+
+// sharedKinds: more shared-object plans (secret sharing, CP-ABE keys).
+func sharedKinds() []concKind {
+	var ks []concKind
+	for _, g := range []group.Group{group.P256, group.Ristretto255} {
+		g := g
+		ks = append(ks, concKind{name: "secretsharing/" + fmt.Sprint(g), cost: 1, build: func(trial uint64) concPlan {
+			mkSS := func() secretsharing.SecretSharing {
+				return secretsharing.New(vlib.NewReader(15000+trial), 3, g.NewScalar().SetUint64(77+trial))
+			}
+			shared := mkSS()
+			build := func(ss secretsharing.SecretSharing) []func() string {
+				id := func(i uint64) group.Scalar { return g.NewScalar().SetUint64(i) }
+				sh := func(i uint64) func() string {
+					return func() string { s := ss.ShareWithID(id(i)); return hx(s.Value.MarshalBinary()) }
+				}
+				return []func() string{sh(1), sh(2), sh(3), sh(4), sh(5),
+					func() string {
+						out := ""
+						for _, s := range ss.Share(4) {
+							out += hx(s.Value.MarshalBinary())[:16]
+						}
+						return out
+					},
+					func() string {
+						out := ""
+						for _, c := range ss.CommitSecret() {
+							out += hx(c.MarshalBinaryCompress())[:16]
+						}
+						return out
+					},
+					func() string {
+						s := ss.ShareWithID(id(9))
+						return fmt.Sprint(secretsharing.Verify(3, s, ss.CommitSecret()))
+					},
+				}
+			}
+			// group.Ristretto255.RandomScalar ignores its reader, so an independent copy of the same polynomial
+			// cannot be built: the expectation is what the same (read-only) operations return on the shared
+			// object before the goroutines start
+			return concPlan{ops: build(shared), want: wants(build(shared)), desc: []string{"ShareWithID(1)", "ShareWithID(2)", "ShareWithID(3)", "ShareWithID(4)", "ShareWithID(5)", "Share(4)", "CommitSecret", "Verify"}}
+		}})
+	}
+	ks = append(ks, concKind{name: "tkn20", cost: 12, build: func(trial uint64) concPlan {
+		pk, msk, err := tkn20.Setup(vlib.NewReader(15100 + trial))
+		if err != nil {
+			panic(err)
+		}
+		mkAttrs := func(m map[string]string) tkn20.Attributes { var a tkn20.Attributes; a.FromMap(m); return a }
+		mkPol := func(s string) tkn20.Policy {
+			var p tkn20.Policy
+			if err := p.FromString(s); err != nil {
+				panic(err)
+			}
+			return p
+		}
+		// every operation runs Encrypt and KeyGen on the shared keys with its own policy / attributes and
+		// reports whether the result decrypts (the randomness differs per call, so bytes are not compared)
+		op := func(i int) func() string {
+			return func() string {
+				pol := mkPol(fmt.Sprintf("(a: %d and b: x) or c: %d", i, i))
+				good := mkAttrs(map[string]string{"a": fmt.Sprint(i), "b": "x", "c": "no"})
+				bad := mkAttrs(map[string]string{"a": fmt.Sprint(i + 1), "b": "x", "c": "no"})
+				msg := sd(40, 15200+trial*16+uint64(i))
+				ct, err := pk.Encrypt(vlib.NewReader(15300+trial*16+uint64(i)), pol, msg)
+				if err != nil {
+					return "encrypt-error:" + err.Error()
+				}
+				kg, err := msk.KeyGen(vlib.NewReader(15400+trial*16+uint64(i)), good)
+				if err != nil {
+					return "keygen-error:" + err.Error()
+				}
+				kb, err := msk.KeyGen(vlib.NewReader(15500+trial*16+uint64(i)), bad)
+				if err != nil {
+					return "keygen-error:" + err.Error()
+				}
+				pt, err := kg.Decrypt(ct)
+				if err != nil || string(pt) != string(msg) {
+					return fmt.Sprintf("satisfying key does not decrypt: %v", err)
+				}
+				if _, err := kb.Decrypt(ct); err == nil {
+					return "non-satisfying key decrypts"
+				}
+				return fmt.Sprint("ok ", good.CouldDecrypt(ct), bad.CouldDecrypt(ct))
+			}
+		}
+		ops := []func() string{op(0), op(1), op(2), op(3)}
+		return concPlan{ops: ops, want: []string{"ok true false", "ok true false", "ok true false", "ok true false"}, desc: []string{"Encrypt+KeyGen+Decrypt", "same", "same", "same"}}
+	}})
 	return ks
 }
